@@ -191,6 +191,8 @@ def impl_builtin(case):
     from skchange.change_scores import CUSUM, ChangeScore
 
     X = np.array(case["X"], dtype=np.int64 if case.get("int") else float)
+    if not case.get("int") and case["cost"] in ("l2", "gvar") and core._bits(case, 8, 4) == 0:
+        X = X.astype(np.float32)  # single-precision input: scores are still computed in double precision from these values
     n = case["n"]
     rng = random.Random(case["seed"])
     try:
@@ -239,8 +241,10 @@ def oracle_builtin(case, r):
         if r["outcome"] == "other:RuntimeError" and case["cost"] == "gcov":
             return None  # documented error for a non-positive-definite sample covariance
         return f"raised {r['outcome']} {r.get('msg', '')}"
-    sc2 = (1 + max(abs(v) for row in case["X"] for v in row)) ** 2 * case["n"]
-    tol = 1e-7 * (sc2 if case["cost"] == "l2" else max(1.0, case["n"] * 40.0))
+    sc2 = max(max(abs(v) for row in case["X"] for v in row), abs(float(np.max(np.abs(case["mean"])))), 1e-150) ** 2 * case["n"]
+    # absolute tolerance: far above double-precision prefix-sum rounding (~1e-16 * n * max|x|^2), far below what single-precision
+    # accumulation would produce (~1e-7 * n * max|x|^2)
+    tol = 1e-10 * sc2 if case["cost"] == "l2" else 1e-7 * max(1.0, case["n"] * 40.0)
 
     def close(a, b):
         return np.allclose(np.array(a, dtype=float), np.array(b, dtype=float), rtol=1e-7, atol=tol)
@@ -299,7 +303,9 @@ def gen_refit(rng, nmax):
     return {"adapter": adapter, "scenario": scen, "n": n, "p": p, "X1": mk(), "X2": mk(), "weight": rng.choice([1, 2]),
             "param": rng.choice([-2, 1, 3]), "cuts": gen_cuts(rng, n, k, 1, rng.randint(2, 6)), "eval_between": rng.random() < 0.5,
             # nested scenario: the wrapped cost is re-configured through the adapter (set_params(<cost>__weight=..., <cost>__param=...))
-            "weight2": rng.choice([2, 3, 5]), "param2": rng.choice([-1, 2, 4]), "inner0": rng.choice([None, 1])}
+            "weight2": rng.choice([2, 3, 5]), "param2": rng.choice([-1, 2, 4]), "inner0": rng.choice([None, 1]),
+            # "fresh" scenario: the first data are integer-typed counts, the second real-valued (halves)
+            "x1int": rng.random() < 0.5, "x2frac": rng.random() < 0.5}
 
 
 def impl_refit(case):
@@ -316,7 +322,8 @@ def impl_refit(case):
         cost = MultisetCost(param=prm if ad == "saving" else (case.get("inner0") if nested else None), weight=w)
         sc = {"change": lambda: ChangeScore(cost), "saving": lambda: Saving(cost), "local": lambda: LocalAnomalyScore(cost),
               "cusum": CUSUM, "l2saving": L2Saving}[ad]()
-        X = np.array(case["X1"], dtype=float)
+        fresh_mix = case["scenario"] == "fresh"
+        X = np.array(case["X1"], dtype=np.int64 if fresh_mix and case.get("x1int") else float)
         cuts = np.array(case["cuts"])
         if nested:
             if case["eval_between"]:
@@ -346,7 +353,7 @@ def impl_refit(case):
             sc.fit(X)
             final = "X2"
         elif case["scenario"] == "fresh":
-            sc.fit(np.array(case["X2"], dtype=float))
+            sc.fit(np.array(case["X2"], dtype=float) + (0.5 if case.get("x2frac") else 0.0))
             final = "X2"
         else:  # another adapter holding the same cost object is fitted to other data in between
             other = (LocalAnomalyScore if ad == "change" else ChangeScore)(cost)
@@ -362,6 +369,8 @@ def oracle_refit(case, r):
     if r["outcome"] != "ok":
         return f"raised {r['outcome']} {r.get('msg', '')}"
     X = np.array(case[r["final"]], dtype=float)
+    if case["scenario"] == "fresh" and case.get("x2frac"):
+        X = X + 0.5
     w, prm, ad = case["weight"], case["param"], case["adapter"]
     inner = None
     if case["scenario"] == "nested":  # the definitions with the cost as re-configured through the adapter
